@@ -15,6 +15,9 @@ type IterModel struct {
 	wit  [][]*smt.Term
 	pos  int
 	name string
+	// paged: the List call carried ormlist.Paginate (then PageResponse is non-nil)
+	paged      bool
+	countTotal bool
 }
 
 func (m *IterModel) ModelName() string { return "Iterator" }
@@ -42,7 +45,20 @@ func (m *IterModel) Invoke(x *Exec, method string, args []Value, c *ssa.CallComm
 		x.store(dst, row)
 		return IfaceV{}
 	case "PageResponse":
-		return PtrV{}
+		if !m.paged {
+			return PtrV{}
+		}
+		// all matching rows fit in the first page (checked when the iterator was created):
+		// no next key; the total is the number of rows when it was asked for
+		pt := c.Method.Type().(*types.Signature).Results().At(0).Type().(*types.Pointer)
+		st := x.zero(pt.Elem()).(StructV)
+		ut := pt.Elem().Underlying().(*types.Struct)
+		for i := 0; i < ut.NumFields(); i++ {
+			if ut.Field(i).Name() == "Total" && m.countTotal {
+				st.F[i] = IntV{x.B.Int(int64(len(m.wit)))}
+			}
+		}
+		return PtrV{Obj: x.newObj(st, "PageResponse")}
 	case "Keys":
 		x.Unsupported("Iterator.Keys")
 	case "Cursor":
@@ -268,6 +284,50 @@ func (m *TableModel) iterate(x *Exec, ts *TableState, method string, args []Valu
 		return IfaceV{}
 	}
 	it := &IterModel{ts: ts, wit: wit, name: name}
+	// options: only pagination that keeps every matching row in the first page is modelled
+	// (the page walk is the ORM paginator's own business)
+	for _, ov := range args[2:] {
+		for _, o := range x.variadic(ov) {
+			op, ok := unwrapIface(o).(OpaqueV)
+			if !ok || op.Kind != "orm-paginate" {
+				x.Unsupported("ORM list option %T", unwrapIface(o))
+			}
+			it.paged = true
+			pr, _ := op.Data.(Value)
+			pp, ok := pr.(PtrV)
+			if !ok || pp.Obj == nil {
+				continue
+			}
+			rv := x.load(pp).(StructV)
+			names := op.Names
+			for i, fn := range names {
+				switch fn {
+				case "Key":
+					if sl, ok := rv.F[i].(SliceV); ok && !(sl.Nil || (sl.Atom == nil && sl.Len == 0)) {
+						x.Unsupported("pagination by key (outside the claim: the page walk is the ORM's)")
+					}
+				case "Offset":
+					if v, ok := rv.F[i].(IntV).T.ConstInt64(); !ok || v != 0 {
+						x.Unsupported("pagination offset (outside the claim: the page walk is the ORM's)")
+					}
+				case "Limit":
+					if v, ok := rv.F[i].(IntV).T.ConstInt64(); !ok || (v != 0 && v < int64(maxN)) {
+						x.Unsupported("pagination limit below the iterator bound (outside the claim)")
+					}
+				case "Reverse":
+					if !rv.F[i].(BoolV).T.IsFalse() {
+						x.Unsupported("reverse pagination (outside the claim)")
+					}
+				case "CountTotal":
+					if rv.F[i].(BoolV).T.IsTrue() {
+						it.countTotal = true
+					} else if !rv.F[i].(BoolV).T.IsFalse() {
+						x.Unsupported("symbolic count_total")
+					}
+				}
+			}
+		}
+	}
 	// result: the generated XxxIterator struct{ ormtable.Iterator }
 	return TupleV{StructV{F: []Value{ModelV{it}}}, IfaceV{}}
 }
